@@ -4308,6 +4308,12 @@ pub struct NonLocals {
 
 impl NonLocals {
     fn get(&self, name: &str) -> Option<KValue> {
+        // The module's own exports take precedence over wildcard imports,
+        // an exported value is visible everywhere in its module.
+        if let Some(exported) = self.module_exports.get(name) {
+            return Some(exported);
+        }
+
         if let Some(wildcard_imports) = &self.wildcard_imports {
             // Check any wildcard imports in reverse order (most recent import takes precedence)
             for wildcard_import in wildcard_imports.iter().rev() {
@@ -4325,8 +4331,7 @@ impl NonLocals {
             }
         }
 
-        // Check the module's exports
-        self.module_exports.get(name)
+        None
     }
 
     fn add_wildcard_import(&mut self, new_import: KValue) {
